@@ -592,10 +592,24 @@ func posSig(text []byte, ref map[int]refPos, t lexTok) string {
 			}
 		}
 	case influxql.BADESCAPE:
-		for o := t.start + 1; o <= t.end; o++ {
-			if at(o) {
+		// the recorded defect: the position reported is that of the character after the backslash
+		// of the first invalid escape (exactly that one, so any other wrong position is new)
+		for o := t.start; o+1 < t.end && o+1 < len(text); o++ {
+			if text[o] != '\\' {
+				continue
+			}
+			switch text[o+1] {
+			case 'n', '\\', '"', '\'':
+				o++ // a valid escape
+				continue
+			}
+			if at(o + 1) {
 				return "pos:" + name + ":inside-token"
 			}
+			break
+		}
+		if t.end <= len(text) && t.end > t.start && text[t.end-1] == '\\' && at(t.end) {
+			return "pos:" + name + ":inside-token" // backslash as the last character of the input
 		}
 	}
 	want := ref[t.start]
@@ -697,6 +711,16 @@ func checkParseErrorPos(text []byte, full *lexScan, res *core.RunResult) {
 		return
 	}
 	res.Probe("parse-error-pos-checked")
+	// an error value handed to the caller must not change when a later parse fails: parse a shifted
+	// copy of the text and compare the first error with its snapshot
+	snapPos, snapMsg := pe.Pos, pe.Error()
+	verifhook.BeginOp(int64(c04BudgetA) + int64(c04BudgetB)*int64(len(text)+2))
+	core.Guard(func() { _, _ = influxql.ParseQuery("\n " + string(text)) })
+	res.Steps += verifhook.EndOp()
+	if pe.Pos != snapPos || pe.Error() != snapMsg {
+		res.Violate("parse-error-mutated-later", fmt.Sprintf("a ParseError returned earlier (%q) changed after a later failing parse: now %q\ntext=%s", snapMsg, pe.Error(), strconv.QuoteToASCII(string(text))))
+		return
+	}
 	ref := positions(text)
 	// byte offset of the reported position (inverse of the reference counter)
 	off := -1
